@@ -23,6 +23,15 @@ CLAIMED["C02"] = dict(
     ref="5/C02",
 )
 
+CLAIMED["C03"] = dict(
+    text="Bounded symbolic checking: every built-in nonlinear-function class is traced with L, scales/coefficients and a full Hermitian spectrum symbolic and compared, per stored mode and channel, with the documented operator "
+    "evaluated by exact convolution over integer wavenumbers on the retained band (zero outside) - a polynomial identity decided by z3; odd and even N via exact twiddles (radicals / minimal polynomial of cos(2pi/N)). "
+    "The float cut-off decision of the dealiasing mask is decided against the exact rational rule for ALL N<=4096 in QF_BVFP (f32 and f64), from the AST of the current source.",
+    note="E1 grid sizes bounded (listed in evidence); real arithmetic; input is the rfft of a real field; E2 models JAX's rfftfreq/weak-type comparison semantics (validated by a sweep each run); trusted: tracer, interpreter, z3, cvc5.",
+    technique="symbolic execution of jaxprs to QF_NRA (z3) + AST-extracted scalar kernels to QF_BVFP with symbolic N (cvc5)",
+    ref="5/C03",
+)
+
 NOT_APPLICABLE = {
     "C19": "floating-point overflow/precision faithfulness of XLA's exp/complex-division kernels for |lambda dt| up to 1e15 and f32-vs-f64 closeness: needs a bit-level model of XLA CPU kernels and exp in QF_FP, which is not available offline; real-arithmetic fragments are discharged under C02/C03 instead (DESIGN.md section 9)",
 }
